@@ -131,7 +131,41 @@ func loadFile(store int, path string) (string, error) {
 
 // ---------- Coq rendering ----------
 
-func coqBytes(b []byte) string { return vh.App("s2b", vh.Str(string(b))) }
+// coqBytes renders a byte blob as a Coq term of type list N. Blobs are interned: each distinct blob is defined once
+// per shard (through Run.Imports) as `ub len [words]%uint63`, 7 bytes per primitive-integer literal.
+var (
+	curRun   *vh.Run
+	blobName map[string]string
+)
+
+func coqBytes(b []byte) string {
+	if len(b) == 0 {
+		return "[]"
+	}
+	if n, ok := blobName[string(b)]; ok {
+		return n
+	}
+	var sb strings.Builder
+	name := fmt.Sprintf("b'%d", len(blobName))
+	fmt.Fprintf(&sb, "Definition %s : list N := ub %d [", name, len(b))
+	for i := 0; i < len(b); i += 7 {
+		var w uint64
+		for j := 0; j < 7; j++ {
+			w <<= 8
+			if i+j < len(b) {
+				w |= uint64(b[i+j])
+			}
+		}
+		if i > 0 {
+			sb.WriteByte(';')
+		}
+		fmt.Fprintf(&sb, "%d", w)
+	}
+	sb.WriteString("]%uint63.")
+	curRun.Imports = append(curRun.Imports, sb.String())
+	blobName[string(b)] = name
+	return name
+}
 
 func coqOp(o FsOp) string {
 	switch o.Kind {
@@ -277,7 +311,7 @@ func evalPoint(t *testing.T, store int, target string, old []byte, oldPresent bo
 	case len(tb) < len(nw) && bytes.Equal(tb, nw[:len(tb)]):
 		res.img = fmt.Sprintf("(IPrefix %d)", len(tb))
 	default:
-		res.img = vh.App("IOther", vh.Str(string(tb)))
+		res.img = vh.App("IOther", coqBytes(tb))
 	}
 	canon, err := loadFile(store, filepath.Join(dir, target))
 	switch {
@@ -316,13 +350,13 @@ func crashCase(t *testing.T, run *vh.Run, r *vh.Rand, store int, target string, 
 	}
 	oldTerm := "None"
 	if oldPresent {
-		oldTerm = vh.Some(vh.Str(string(old)))
+		oldTerm = vh.Some(coqBytes(old))
 	}
 	// one Coq case per chunk of points (the shards are evaluated in parallel)
 	const chunk = 100
 	for lo := 0; lo < len(pts); lo += chunk {
 		hi := min(lo+chunk, len(pts))
-		term := fmt.Sprintf("CCrash %d %s %s %s\n  %s\n  [%s]", store, vh.Str(target), oldTerm, vh.Str(string(nw)), coqOps(ops), strings.Join(terms[lo:hi], ";\n   "))
+		term := fmt.Sprintf("CCrash %d %s %s %s\n  %s\n  [%s]", store, vh.Str(target), oldTerm, coqBytes(nw), coqOps(ops), strings.Join(terms[lo:hi], ";\n   "))
 		js := Case{Kind: "crash", Store: store, Target: target, Old: old, OldPresent: oldPresent, New: nw, Ops: ops, Points: pts[lo:hi],
 			OldCanon: oldCanon, NewCanon: newCanon}
 		run.Add(term, js, hi-lo > 3)
@@ -444,7 +478,7 @@ func runChain(t *testing.T, run *vh.Run, r *vh.Rand, c *Case, exhaustiveLimit in
 				kinds = append(kinds, o.Kind)
 			}
 			run.Count("recorded_op_shapes", strings.Join(kinds, ","))
-			run.Add(fmt.Sprintf("COps %s %s %s\n  %s", vh.Str(target), vh.Str(tmp), vh.Str(string(data)), coqOps(seg)), one, true)
+			run.Add(fmt.Sprintf("COps %s %s %s\n  %s", vh.Str(target), vh.Str(tmp), coqBytes(data), coqOps(seg)), one, true)
 			if gi == len(segs)-1 && ferr == nil && !bytes.Equal(data, final) {
 				run.Violate("file-differs-from-written-bytes", target+": the snapshot file does not hold the bytes written on the snapshot path", one)
 			}
@@ -516,6 +550,7 @@ func runOne(t *testing.T, run *vh.Run, r *vh.Rand, c *Case, exhaustiveLimit int)
 func TestCheck(t *testing.T) {
 	env := vh.GetEnv()
 	run := vh.NewRun(env, "AM.Run.C11Run")
+	curRun, blobName = run, map[string]string{}
 	r := vh.NewRand(env.Seed)
 	if env.Replay != "" {
 		var c Case
